@@ -152,7 +152,7 @@ func driveUpdates(c *hx.Ctx) error {
 	ss := c.NewShard("schedules", imports, "sched_case", "corr_sched", "holds_sched", 50)
 	r := c.Rand("updates")
 
-	rounds := c.Pick(4, 24)
+	rounds := c.Pick(10, 24)
 	perPlugin := c.Pick(40, 100)
 	totalUpd, totalOverlapCB, totalOverlapH, withErr, withFailed, emptyList := 0, 0, 0, 0, 0, 0
 	caseNo := 0
@@ -373,8 +373,13 @@ func driveUpdates(c *hx.Ctx) error {
 		var uerr error
 		t0 := time.Now()
 		go func() {
+			defer close(done)
+			defer func() {
+				if r := recover(); r != nil {
+					uerr = fmt.Errorf("panic in Stub.UpdateContainers: %v", r)
+				}
+			}()
 			failed, uerr = st.UpdateContainers(fromItems(u.Updates))
-			close(done)
 		}()
 		select {
 		case <-done:
